@@ -23,6 +23,19 @@ var docKeys = []string{"a", "b", "c", "d", "", "é", "k-1", "a"}
 var docStrings = []string{"", "a", "b", "ab", "é", "𝒳y", "10", "1e2", "x y", "'", "\"", "\\", "`", "100%", "%s%d", "a%%b", "<&>", "\u2028"}
 var docNumbers = []float64{0, 1, -1, 2, 3, 10, 0.5, -2.5, 1e15, 7}
 
+// Text and numbers whose representation matters: code points at every UTF-8 length boundary,
+// a replacement character, a combining mark and title-case digraphs at the start of a string,
+// digit strings around 2^53, 2^63 and 2^64; numbers that print in exponent form, need 17
+// significant digits, sit at the 2^53/2^63 boundaries or at the ends of the float64 range.
+var hardDocStrings = []string{"\ufffd", "\ufffdabc", "\u007f", "\u0080", "\u07ff", "\u0800", "\uffff", "\U00010000", "\U0010ffff", "\u0301a", "ǆ", "ǅa", "ა", "ß", "İ", "\u0085", "\u00a0x", "\ufeffa", "a\u0000b",
+	"9223372036854775807", "9223372036854775808", "9999999999999999999", "18446744073709551616", "9007199254740993", "0.23333333333333334", "-0", "1e400", "-1e-400", "1E+2", "12345678901234567890123", "é\u0301𝄞"}
+var hardDocNumbers = []float64{1e21, -1.5e300, 1e308, -1e308, 1.7976931348623157e308, 5e-324, 1e-7, 1.2345678901234568e-10, 6.02214076e23, 9007199254740992, 9007199254740993, 9223372036854775807, 9223372036854775808, 18446744073709551616,
+	0.1, 0.23333333333333334, 1.4000000000000001, 1e20, 123456789012345680000, 1e-6, 0.000001234, 999999999999999900000, -1e21, 4.35, 0.30000000000000004, 2.5e-8, 1e16, 12345678.9}
+
+// moderateOnly keeps the extreme numbers out of the documents (C16 quantifies over documents
+// whose sums cannot overflow); it is set by a test before it generates anything.
+var moderateOnly bool
+
 type docOpts struct {
 	maxDepth int
 	maxWidth int
@@ -39,10 +52,16 @@ func genScalar(t *rapid.T) interface{} {
 		if uni(t, 8, "negzero") == 0 {
 			return negZero()
 		}
+		if !moderateOnly && uni(t, 8, "hardNum") == 0 {
+			return hardDocNumbers[uni(t, len(hardDocNumbers), "hardNumIdx")]
+		}
 		return rapid.SampledFrom(docNumbers).Draw(t, "num")
 	case 5:
 		return float64(rapid.IntRange(-3, 12).Draw(t, "int"))
 	default:
+		if uni(t, 8, "hardStr") == 0 {
+			return hardDocStrings[uni(t, len(hardDocStrings), "hardStrIdx")]
+		}
 		return rapid.SampledFrom(docStrings).Draw(t, "str")
 	}
 }
@@ -191,7 +210,7 @@ type frag struct {
 	slices      bool
 	exprefAll   bool // all functions incl. by-expression ones
 	maxDepth    int
-	mismatch    int // percentage of deliberately mismatching choices
+	mismatch    int  // percentage of deliberately mismatching choices
 	nav         bool // C18 navigational fragment: no object wildcard, no comparators, only length() of arrays/strings
 }
 
